@@ -23,7 +23,7 @@ CHECKS["C03"] = ("bfs+sweep (worker subprocesses)", "model_checking",
     "Every reachable state of the two production decoders with a buffer of at most B bytes over a representative alphabet "
     "(one byte per class of the production DFA that matters structurally) is visited and from each every continuation of length <= 2 (3) "
     "is fed whole, byte by byte and with empty reads; all strings up to length 4-5 over the alphabet (and all byte strings up to length 2-3) "
-    "are decoded under ALL partitions into reads - each partition twice: as separate reads and as successive fill_buf slices of ONE reader; "
+    "are decoded under ALL partitions into reads - each partition twice: as separate reads and as successive fill_buf slices of ONE reader, and (whole input; single cuts of short inputs) with one decode call followed by decode_into on every read; "
     "for every looping state of the automata a read of 32 / 65 filler bytes followed by every way of leaving the loop starts inside the loop (bulk handling of long reads), also with 70 000 and 1 100 000 filler bytes; the incremental tokeniser core is instantiated (hook H1) over every set of up to 2 (3) "
     "patterns from a pool of 14 and run on every input over {a,b,c} up to length 7 (8) under all partitions. Each execution is compared with "
     "the others (same events, same final state) and with a reference leftmost-longest tokenisation computed from per-prefix acceptance of "
@@ -35,8 +35,8 @@ CHECKS["C01"] = ("bfs", "model_checking",
     "explicit-state BFS over renderer histories of the real TerminalRenderer against a VT screen model, differential vs from-scratch repaint",
     "A state is the real renderer (back buffer, marks, glyph cache read through hook H3) together with a reference VT screen that executed every "
     "command the renderer issued. Transitions: draw any surface of the grid and call frame; draw-and-reset without a frame; clear(); clear()+new(clear=true); "
-    "a frame whose commands are lost followed by clear(). For each of 11 (19) grids up to 2x3 / 1x7 / 4x2 (some taller than wide) the search runs over ALL surfaces built from up to 11 of 19 cell kinds "
-    "(narrow, wide, coloured, underlined blanks, four images incl. equal content in a different allocation and a two-row one, two tiles of one sprite sheet, two glyphs, one of them under two faces and once inside a frame, non-ASCII white space; "
+    "a frame whose commands are lost followed by clear(). For each of 12 (22) grids up to 2x3 / 1x7 / 4x2 (some taller than wide) the search runs over ALL surfaces built from up to 11 of 22 cell kinds "
+    "(narrow, wide, coloured, underlined blanks, four images incl. equal content in a different allocation and a two-row one, two tiles of one sprite sheet, two glyphs, one of them under two faces and once inside a frame, non-ASCII white space, an image under two faces, reverse-video blanks of two colours; "
     "a glyph must show as the image its own rasterisation gives for that face and cell size) and continues to a fixpoint of the state graph; "
     "after every frame the screen must equal what a fresh renderer paints on a blank screen, the from-scratch screen must equal the direct reading of the surface when nothing overlaps, "
     "and no command may address a cell outside the grid or print in the pending-wrap column.",
@@ -46,7 +46,7 @@ CHECKS["C01"] = ("bfs", "model_checking",
 CHECKS["C16"] = ("bfs + devdfs (worker subprocesses)", "model_checking",
     "explicit-state BFS of the real IOQueue against a byte model + deviation-bounded enumeration of kernel answers for the real UnixTerminal on a pty",
     "(a) BFS over all histories of write/flush/read/consume/consume_with/fill_buf/clear_but_last on the real IOQueue (payload capped) to the depth bound: in every state "
-    "len() must equal the readable bytes, bytes come out in order exactly once, and a drop may remove only whole flush-delimited chunks that have not started; a second pass over one-byte and 64 KiB / 70 001-byte writes and consumes to depth 7 (9) and a third over a 3.3 MB chunk with consumes of 1 MiB + 1 and 2.2 MB to depth 4 (5) cover buffer re-allocation and block-release thresholds. "
+    "len() must equal the readable bytes, bytes come out in order exactly once, and a drop may remove only whole flush-delimited chunks that have not started; a second pass over one-byte and 64 KiB / 70 001-byte writes and consumes to depth 7 (9) and (read_to_end in the alphabet; after every history a probe continuation - 3 bytes, flush, 2 bytes, drain - must deliver everything pending plus the five bytes, and its chunk lengths are part of the state key) and a third over a 3.3 MB chunk with consumes of 1 MiB + 1 and 2.2 MB to depth 4 (5) cover buffer re-allocation and block-release thresholds. "
     "(b) The real UnixTerminal runs scripted write/execute/flush/poll/frames_drop sessions on a real pseudo-terminal while hook H2 lets the harness answer every "
     "select/write/read and own the clock; ALL schedules with at most 2 (3; short sessions 3 (4), in the quick tier not those pushing more than 64 KiB) departures from the cooperative answer (short write of 1 / half / len-1 bytes, EAGAIN, EINTR, "
     "withheld or delayed writability) are executed to completion, for every crash point of every session; the bytes accepted by the tty must be the written chunks in order, whole, "
@@ -56,7 +56,7 @@ CHECKS["C16"] = ("bfs + devdfs (worker subprocesses)", "model_checking",
 CHECKS["C17"] = ("devdfs (worker subprocesses)", "fault_enumeration",
     "deviation-bounded enumeration of environment events (wake, SIGWINCH, SIGTERM, input, hang-up) at every system-call boundary and of every crash point, real UnixTerminal on a pty",
     "Same explorer as C16(b). In addition a waker call, SIGWINCH, SIGTERM, the next input bytes or a hang-up may land before ANY select/write/read or between the signal, waker and input "
-    "phases of the poll loop (hook points), each costing one deviation; polls use timeouts 0, 5 ms (virtual clock) and infinite; bursts of 127 / 128 / 256 / 1024 wake requests before one poll; a termination and a window-size signal pending together in both orders; three wake requests at every triple of points; two terminal objects one after the other on one pty device number (the first hung up before its release, the second with other initial line settings; real system calls, in a child process); the terminal is released after every prefix of every session. "
+    "phases of the poll loop (hook points), each costing one deviation; polls use timeouts 0, 5 ms (virtual clock) and infinite; bursts of 127 / 128 / 256 / 1024 wake requests before one poll; a termination and a window-size signal pending together in both orders; three wake requests at every triple of points; three keys typed before position() with another one arriving inside it; two terminal objects one after the other on one pty device number (the first hung up before its release, the second with other initial line settings; real system calls, in a child process); the terminal is released after every prefix of every session. "
     "Oracle: a wake is followed by a Wake event from the current or a later poll and never blocks a poll for ever; SIGWINCH yields a Resize; SIGTERM yields the quit error; input bytes come out "
     "as the events a reference decoder gives, in order; no quit without cause; after release tcgetattr equals the saved settings and, if the tty kept accepting writes, the closing sequence "
     "(cursor visible, mouse modes off) was delivered. Every failing schedule is replayed twice and must fail identically.",
@@ -77,7 +77,7 @@ CHECKS["C11"] = ("bfs / history enumeration", "model_checking",
     "exhaustive enumeration of draw/erase/response histories on the real KittyImageHandler against an independent kitty-graphics parser and reference terminal image store",
     "All histories of depth 3 (no de-duplication; 1.19 M) and, de-duplicated by (transmitted ids, reference terminal state), depth 4 (6) over a 106-operation alphabet (7 images incl. 1x1, cropped/strided view, equal pixels in another allocation, "
     "empty, exactly-4096-byte payload, three-chunk payload; 4 positions incl. the origin and (65535,65535); draw, erase(Some), erase(None), OK and error responses for known and unknown ids, unrelated events) are executed on the real handler, "
-    "plus every history of 2 (3) operations over a second set of 11 images that differ in memory layout (row-major, transposed, windows with gaps, re-allocated copies; ids must be injective on content), volume histories (a 134 MB image drawn twice; thorough: 12 x 16 MiB and 40 x 4 MiB images twice), sinks that take 1 / 7 bytes per call, the .quiet() handler, 1 024 single-pixel images over every channel value and thousands of sizes across the chunk boundaries. The emitted bytes are parsed by an independent APC/kitty parser and fed to a reference terminal store; "
+    "plus every history of 2 (3) operations over a second set of 11 images that differ in memory layout (row-major, transposed, windows with gaps, re-allocated copies; ids must be injective on content), volume histories (a 134 MB image drawn twice; thorough: 12 x 16 MiB and 40 x 4 MiB images twice), sinks that take 1 / 7 bytes per call, a first draw whose sink fails after 0 / 1 / 20 / 60 / 4300 bytes followed by a draw into a working sink, the .quiet() handler, 1 024 single-pixel images over every channel value and thousands of sizes across the chunk boundaries. The emitted bytes are parsed by an independent APC/kitty parser and fed to a reference terminal store; "
     "oracle: valid commands, s/v = image size, f=32, chunks <= 4096 and multiples of 4 with correct m flags, payload base64-decodes to the exact RGBA pixels row-major, at most one transmission per content (plus one per evicting error), "
     "every put names a transmitted image, erase(img, Some(pos)) removes exactly the placement draw(img,pos) created.",
     "Trusts the reading of the kitty graphics protocol in model/kitty.rs (p=0 = unspecified); id hash collisions are out of reach of enumeration.",
@@ -85,7 +85,7 @@ CHECKS["C11"] = ("bfs / history enumeration", "model_checking",
 CHECKS["C12"] = ("sweep", "exploration",
     "exhaustive small-image sweep decoded by an independent sixel interpreter",
     "All colourings of 6x1 and 6x2 images over 3 colours and 6x3 over 2 (thorough: 6x2 over 4, 6x4, 12x1, 12x2), all constant-column single-band images up to width 12 (16), heights {6,7,11,12,13} x widths 1..5, >256 colour gradients, "
-    "alpha {0,128,255} over three backgrounds, 1 260 crops, every channel value, runs of fully transparent black pixels, repeated draws on shared handlers and into sinks that take 1 / 7 bytes per call: 0.82 M (51.8 M) images. The emitted bytes are decoded by an independent sixel interpreter (raster attributes, colour registers, "
+    "alpha {0,128,255} over three backgrounds, 1 260 crops, every channel value, runs of fully transparent black pixels, images stored column-major (transposed views, plain and cropped), erase(Some) / erase(None) between draws, repeated draws on shared handlers and into sinks that take 1 / 7 bytes per call: 0.82 M (51.8 M) images. The emitted bytes are decoded by an independent sixel interpreter (raster attributes, colour registers, "
     "repeat, $, -) into an unpainted-initialised raster; oracle: one well-formed sequence, declared size = width x 6*floor(h/6), every pixel painted exactly inside the raster, only defined registers (<= 256), pixel-exact equality at 0-100 "
     "resolution when the colours fit and the image is not subsampled, second draw byte-identical.",
     "Trusts the sixel reading of model/sixel.rs; partial alpha is only checked to lie between pixel and background; images above the subsampling threshold are checked for structure only.",
@@ -93,13 +93,13 @@ CHECKS["C12"] = ("sweep", "exploration",
 CHECKS["C14"] = ("bfs + sweep", "model_checking",
     "closed BFS over the encoder's carry state + exhaustive partition / reader-schedule enumeration against an RFC 4648 reference codec",
     "Encoder: the carry-state graph (65 793 states x 256 bytes) is closed on the real encoder; all 2^24 three-byte groups and all tails; every partition into writes for n <= 12 (18), with flushes, one-byte sinks and empty writes, "
-    "lengths 0..=200 under all <= 2-cut partitions. Decoder: lengths 0..=200 x 12 cyclic reader schedules x 12 destination-buffer patterns, EVERY composition of the text into reads for <= 16 (24) characters, all 2^24 groups; "
+    "lengths 0..=200 under all <= 2-cut partitions. Decoder: lengths 0..=200 x 18 cyclic reader schedules (six of them with interrupted reads) x 12 destination-buffer patterns, lengths up to 65 537 through reads and destinations up to 100 000, EVERY composition of the text into reads for <= 16 (24) characters, all 2^24 groups; "
     "every length not divisible by four must error; ~1.2 M garbage inputs (all two-byte, 20^4 four-character, 64-byte buffer boundary sweeps) must not panic. Reference: RFC 4648 codec checked against the RFC vectors and CPython.",
     "Readers/writers that fail are out of scope; invalid characters only need to avoid a panic (statement silent on their decoding).",
     "DESIGN.md §C14")
 CHECKS["C15"] = ("product-automaton bfs", "model_checking",
     "product BFS (real DFA state x Brzozowski derivative vector) to a fixpoint for every combinator expression up to the node bound",
-    "Every expression with <= 6 (7) nodes over atoms {a, b, [ab], \"ab\", empty, nothing} and operators sequence/choice (2-3 operands)/optional/some/many (124 k; thorough 1.29 M), an edge-arity space (empty and one-element lists) and a deep {a,b} space are built "
+    "Every expression with <= 6 (7) nodes over atoms {a, b, [ab], \"ab\", empty, nothing} and operators sequence/choice (2-3 operands)/optional/some/many (124 k; thorough 1.29 M), an edge-arity space (empty and one-element lists) and a deep {a,b} space are built - each with the constructor functions and, where it has one, in the operator form `a + b`, `a | b` - "
     "through the public NFA API and compiled; the real DFA is stepped on all 256 bytes in every reachable product pair with the derivative of the expression; reaching the fixpoint decides language equality for ALL strings. "
     "Checked in every pair: accepting <=> nullable, dead transition <=> empty derivative, terminal => no byte extends, and for tagged choices tags == alternatives whose derivative is nullable. The production decoder automata (hook H1) are "
     "checked the same way against a byte-level transcription of their grammars. Both reference matchers are cross-checked against CPython re.fullmatch.",
@@ -110,7 +110,7 @@ CHECKS["C18"] = ("bfs + sweep", "model_checking",
     "BFS over histories of register(chord of length 1-3 over {a,b,ctrl+c}) to depth 3 (4) and over {a,b} to depth 4 (6) with an observational key (for_each listing + lookup of every chord up to length 4): in every state all lookups, "
     "the enumeration and register's return value are compared with a last-writer-wins prefix-free dictionary. register_override over all ordered pairs of 1 435 (2 729) small maps. KeyMapHandler/lookup_state on every prefix-free set of up to 3 (4) chords x "
     "every key string up to length 5 (6) over {a,b,c,x}: fires exactly at the last key from idle, an unbound key never blocks the next chord, every firing is sound. Parsers: all strings of <= 3 (5) tokens over a 24-token alphabet, f+1..30 digits, "
-    "every KeyName x 2^9 modifier sets printed and re-parsed, every code point below U+3000 (every scalar value) in ten raw spellings (bare, quoted, with modifiers, inside chords), all ordered pairs of 22 modifier-like words around four keys in five arrangements; a registration BFS over keys that are easy to confuse (F1, F(1+2^32), Tab, the tab character); "
+    "every KeyName x 2^9 modifier sets printed and re-parsed, every code point below U+3000 (every scalar value) in ten raw spellings (bare, quoted, with modifiers, inside chords), all ordered pairs of 22 modifier-like words around four keys in five arrangements; registration BFS over keys that are easy to confuse (F1, F(1+2^32), Tab, the tab character; a, numlock+a, b); the matcher sweep repeated with pointer motion, Tab and a mouse button behind the key indices; "
     "registrations between two chords: for all ordered pairs of 195 small binding sets, a matcher that the statement calls idle must answer like a fresh one after the second set is registered (lookup_state with the caller's buffer and KeyMapHandler).",
     "What happens after a partially typed chord is abandoned by a key that itself begins a chord is not demanded (statement silent); chords longer than 3 as registrations are not explored.",
     "DESIGN.md §C18")
@@ -161,7 +161,7 @@ CHECKS["C09"] = ("sweep", "exploration",
     "All sequences of up to 4 (6) cells over 12 kinds (byte level: 8 character kinds and a four-byte character; plus runs of 33 / 70 characters followed by each kind, cut at every position) (narrow, 2-byte, wide, two zero-width, newline, tab, CR, glyph with narrow / wide fallback, images of 1 and 2x2 cells) are written into views of 1..3 x 1..5 cells placed plainly, offset, strided (stride 2) and transposed "
     "inside a 7x10 sentinel canvas, wraps on/off, glyph support on/off, cursor at the origin or in the last column, through put_cell, io::Write on TerminalWriter, utf8_writer(), tty_writer() (SGR between characters) and the Text view (layout + render). "
     "Oracle: no canvas cell outside the view changes; ALL 2^(n-1) partitions of the bytes into write calls (byte strings up to 12 bytes; <= 2 cuts and byte-by-byte beyond) give the same canvas and no partition-dependent error; the write paths agree with each other; "
-    "for Text rendered into the size its own layout reported for max widths 1..6 every printable cell (glyph fallback characters without glyph support) appears exactly once in reading order, with wrapping off only cells beyond the right edge are missing; for texts with a glyph or image the same holds for a value that was laid out before under the other glyph capability, another cell size and another width and then cloned (layout history).",
+    "for Text rendered into the size its own layout reported for max widths 1..6 (and 9, 10, 30 for glyphs whose fallback text holds a tab or a newline) every printable cell (glyph fallback characters without glyph support) appears exactly once in reading order, with wrapping off only cells beyond the right edge are missing; for texts with a glyph or image the same holds for a value that was laid out before under the other glyph capability, another cell size and another width and then cloned (layout history).",
     "Texts containing CR are exempt from 'exactly once'; widths above 6 and longer sequences are not explored.",
     "DESIGN.md §C09")
 CHECKS["C10"] = ("sweep", "exploration",
@@ -174,7 +174,7 @@ CHECKS["C10"] = ("sweep", "exploration",
     "DESIGN.md §C10")
 CHECKS["C13"] = ("sweep", "exploration",
     "exhaustive small-image and small-palette sweeps against brute-force nearest-colour search",
-    "All images of up to 4 (6) pixels over a 12-colour alphabet in every arrangement (crops of a poisoned border included), all multiset images with each colour 0..=2 times (so that the octree pruning loop is reached: it needs >= 9 distinct colours), subsampled periodic images, flat 1 x n images around the counts where a channel sum leaves the exact range of f32 (n = 65 788..65 812, 132 107, 197 381), all images of up to 4 pixels over three RGB values (black among them) x five alpha values, images of 65 535 .. 67 584 distinct colours with 70 000 requested, "
+    "All images of up to 4 (6) pixels over a 12-colour alphabet in every arrangement (crops of a poisoned border included), all multiset images with each colour 0..=2 times (so that the octree pruning loop is reached: it needs >= 9 distinct colours), subsampled periodic images, flat 1 x n images around the counts where a channel sum leaves the exact range of f32 (n = 65 788..65 812, 132 107, 197 381), all images of up to 4 pixels over three RGB values (black among them) x five alpha values, transposed images, images of 65 535 .. 67 584 distinct colours with 70 000 requested, "
     "x requested sizes {1..10, 256} x dithering on/off x 2 (3) backgrounds: 15.8 M (414 M) quantisations; all palettes of 1-3 colours over a 4^3 lattice x 125 queries and 5 (8) structured palettes of 2..512 colours (xterm-256, clustered, all-equal, duplicates) x ALL 2^24 queries against brute force. "
     "Oracle: Some for non-empty images, 1 <= |palette| <= max(requested, 8), indices valid, without dithering each pixel maps to an entry at minimal squared RGB distance from the composited pixel, find is minimal for every query, exact reproduction when the distinct colours fit and the image is not subsampled; a watchdog turns a stuck pruning loop into a violation.",
     "Compositing of transparent pixels uses the rasterize crate's blend_over (assumed); which of several tied entries wins is not judged; palettes smaller than necessary are allowed by the statement (measured and reported as a lead).",
